@@ -249,7 +249,8 @@ theorem encode_total_1D (cfg : OneDCfg) (hc : OneDCoreTotal cfg.core) :
 
 /-- C12 dimension clause for the 1-D writers: never narrower than the code, never smaller than the request,
     never smaller than 1x1 -/
-theorem encode_dims_1D (cfg : OneDCfg) (hc : OneDCoreTotal cfg.core) :
+theorem encode_dims_1D (cfg : OneDCfg)
+    (hne : ∀ c h code, cfg.core c h = .ok code → 1 ≤ code.length) :
     ∀ content fmt w h hints img, encode1D cfg content fmt w h hints = .ok img →
       ∃ code, cfg.core content hints = .ok code ∧
         (code.length : Int) ≤ img.w ∧ max w 1 ≤ img.w ∧ max h 1 ≤ img.h := by
@@ -263,7 +264,7 @@ theorem encode_dims_1D (cfg : OneDCfg) (hc : OneDCoreTotal cfg.core) :
   split at hok; · cases hok
   rename_i code hcode
   have hm0 := onedMargin_nonneg _ hints margin hm
-  have hl := hc.nonEmpty _ _ _ hcode
+  have hl := hne _ _ _ hcode
   rw [render1D_eq code w h margin hm0 hl] at hok
   cases hok
   refine ⟨code, hcode, ?_, ?_, ?_⟩ <;> simp only [outSize] <;> omega
@@ -308,8 +309,8 @@ example : code128Core (fun c => c.length) (fun _ _ => .ok [true]) [49]
 theorem encode_total_Code128 (rc : List Nat → Nat) (inner : List Nat → Hints → Res (List Bool))
     (hi : OneDCoreTotal inner) (content : List Nat) (fmt : Nat) (w h : Int) (hints : Hints)
     (hty : ∀ v, hints .forceCodeSet = some v → ∃ s, v = .str s) :
-    NoPanic (encode1D ⟨[fmtCODE_128], 10, code128Core rc inner⟩ content fmt w h hints) := by
-  unfold encode1D
+    NoPanic (encode1D (code128Writer rc inner) content fmt w h hints) := by
+  unfold encode1D code128Writer plainWriter
   split
   · exact noPanic_lit _
   · split
@@ -326,6 +327,37 @@ theorem encode_total_Code128 (rc : List Nat → Nat) (inner : List Nat → Hints
           · rename_i code hcode
             rw [render1D_eq code w h margin (onedMargin_nonneg _ hints margin hm) (t2 _ hcode)]
             exact noPanic_ok _
+
+/-- C12 dimension clause for the Code 128 writer (no hypothesis on the hint types is needed here) -/
+theorem encode_dims_Code128 (rc : List Nat → Nat) (inner : List Nat → Hints → Res (List Bool))
+    (hi : OneDCoreTotal inner) :
+    ∀ content fmt w h hints img, encode1D (code128Writer rc inner) content fmt w h hints = .ok img →
+      ∃ code, code128Core rc inner content hints = .ok code ∧
+        (code.length : Int) ≤ img.w ∧ max w 1 ≤ img.w ∧ max h 1 ≤ img.h := by
+  apply encode_dims_1D (code128Writer rc inner)
+  intro c h code hok
+  change code128Core rc inner c h = .ok code at hok
+  unfold code128Core at hok
+  dsimp only at hok
+  split at hok
+  · cases hok
+  · split at hok
+    · exact hi.nonEmpty _ _ _ hok
+    · split at hok
+      · exact hi.nonEmpty _ _ _ hok
+      · cases hok
+    · cases hok
+
+/-- the seven 1-D writers built directly on `OneDimensionalCodeWriter` / `NewUPCEANWriter`:
+    Code 39, Code 93, Codabar, ITF, EAN-13, EAN-8, UPC-E -/
+theorem encode_total_plain1D (core : List Nat → Hints → Res (List Bool)) (hc : OneDCoreTotal core)
+    (cfg : OneDCfg) (hcfg : cfg ∈ [code39Writer core, code93Writer core, codabarWriter core, itfWriter core,
+      ean13Writer core, ean8Writer core, upcEWriter core]) :
+    ∀ content fmt w h hints, NoPanic (encode1D cfg content fmt w h hints) := by
+  have hcore : cfg.core = core := by
+    simp only [List.mem_cons, List.not_mem_nil, or_false] at hcfg
+    rcases hcfg with h | h | h | h | h | h | h <;> rw [h] <;> rfl
+  exact encode_total_1D cfg (by rw [hcore]; exact hc)
 
 /-- C12 "terminates without panicking" for the UPC-A writer (format check, then EAN-13 on "0"+contents) -/
 theorem encode_total_UPCA (ean13 : OneDCfg) (hc : OneDCoreTotal ean13.core) :
@@ -344,7 +376,7 @@ theorem encode_dims_UPCA (ean13 : OneDCfg) (hc : OneDCoreTotal ean13.core) :
   unfold encodeUPCA at hok
   split at hok
   · cases hok
-  · exact encode_dims_1D ean13 hc _ _ _ _ _ _ hok
+  · exact encode_dims_1D ean13 hc.nonEmpty _ _ _ _ _ _ hok
 
 /-! ## non-vacuity -/
 
